@@ -43,7 +43,7 @@ CLAIMS = {
         text='Deductive proof (Verus) of the real text of Instance::relax_constraint / restore_constraint: Err exactly when the id is not in the expected list and then *self is unchanged; '
              'otherwise the first match is removed (order of the rest kept) and pushed on the other list with exactly the given reason, every other field framed. Ghost lemmas: the multiset of all constraints '
              '(whole messages) and id-uniqueness are invariant over operation histories of ANY length (induction).',
-        note='Assumes the extraction rules, Verus+Z3, Iterator::position / Option::is_some_and contracts (stated over the closure ensures, closure bodies are source text). No floating point involved.',
+        note='Assumes the extraction rules, Verus+Z3, Iterator::position / Option::is_some_and contracts (stated over the closure ensures, closure bodies are source text). No floating point involved in relax / restore themselves. The consequence for values and feasibility composes with the contract of Instance::evaluate (and Constraint / RemovedConstraint::evaluate, EvaluatedConstraint::is_feasible) proved in C05: the C14 check re-verifies those units on every run (`composes_with`) and reports a failed obligation of one of them as its own violation.',
         technique='contract-based deductive verification (Verus) of mechanically extracted Rust functions + inductive ghost lemma over histories',
         ref='DESIGN 6 C14'),
     'C04': dict(
@@ -51,7 +51,7 @@ CLAIMS = {
              'ghost lemma lemma_substitute_value: its value at every assignment m equals the ORIGINAL evaluated at the state in which each replaced variable holds the value of its replacement at m (replacements may mention replaced variables: simultaneous substitution), minus an explicit accumulated epsilon-drop remainder of the operator calls; '
              '(b) Instance::substitute: objective, every active and every removed constraint and every existing dependency function are replaced by their substitution, every replacement is recorded in decision_variable_dependency, everything else framed; '
              '(c) eval_dependencies: it TERMINATES (decreases on the retry loop: no hang on cyclic or unsatisfiable dependencies), returns Ok only when every dependent variable received a value (no partial answer), leaves non-dependent given values untouched, and every dependent variable equals its defining function evaluated at the final state, through chains, for EVERY iteration order of the HashMap. Carried into Instance::evaluate in C05.',
-        note=A1 + 'ASSUMED callee contracts of Function::substitute: Function+Function, Function*Function, Function*Linear (pure, value up to an explicit remainder: C02), the purity naming of the term list (name_terms: the list the term iterator yields is a function of the message; the term iterators themselves are verified units of this check (R31), and the former axioms are lemmas over their proved contract), Function::zero, From<f64>, Linear::single_term; of Instance::substitute: the HashMap::iter_mut loop over the dependency functions and HashMap::extend as helpers. Precondition (observation): replacement functions have their oneof set (the operators panic otherwise). The contract of Function::substitute pins the operator order of the code: a refactoring that reorders operator applications is outside the sidecar (lost anchor -> bounded stand-in).',
+        note=A1 + 'ASSUMED callee contracts of Function::substitute: Function+Function, Function*Function, Function*Linear (pure, value up to an explicit remainder: C02), the purity naming of the term list (name_terms: the list the term iterator yields is a function of the message; the term iterators themselves are verified units of this check (R31), and the former axioms are lemmas over their proved contract), Function::zero, From<f64>, Linear::single_term; of Instance::substitute: the HashMap::iter_mut loop over the dependency functions and HashMap::extend as helpers. Precondition (observation): replacement functions have their oneof set (the operators panic otherwise). The reported values of replaced variables compose with Instance::evaluate / eval_dependencies / check_bound as proved in C05: the C04 check re-verifies those units on every run (`composes_with`). The contract of Function::substitute pins the operator order of the code: a refactoring that reorders operator applications is outside the sidecar (lost anchor -> bounded stand-in).',
         technique='contract-based deductive verification (Verus) of mechanically extracted Rust functions; ghost trace (sequences of factor functions) as existential witness; termination by decreases; value lemmas by induction',
         ref='DESIGN 6 C04'),
     'C03': dict(
